@@ -24,7 +24,11 @@ import (
 // still observes its recorded snapshot.
 
 type opC14 struct {
-	Kind     string     `json:"kind"` // unmarshal | readpacket | build | scribble | encode | render | setter | redecode
+	Kind     string     `json:"kind"` // unmarshal | readpacket | build | scribble | encode | render | setter | redecode | reuse-connect | transfer
+	To       int        `json:"to,omitempty"`     // transfer: destination slot
+	Pick     int        `json:"pick,omitempty"`   // transfer: which field
+	Follow   bool       `json:"follow,omitempty"` // transfer: then give the destination (and the source list) another value
+	Fresh    bool       `json:"fresh,omitempty"`  // transfer: the destination is a new packet of the source's type (forwarding)
 	Frame    Hex        `json:"frame,omitempty"`
 	New      bool       `json:"new,omitempty"`    // unmarshal into the constructor's value instead of the zero value
 	Reader   string     `json:"reader,omitempty"` // readpacket: bytes.Reader (default), bytes.Buffer, bufio over the retained slice
@@ -198,6 +202,55 @@ func checkC14(c caseC14) (sig, msg string) {
 			}
 			guard.Call(func() { s.snap = api.Observe(s.p) })
 			except = i
+		case "transfer":
+			// a value returned by an accessor of one packet is handed to a
+			// setter of another (forwarding): afterwards the two are still
+			// separate packets, whatever is set on either of them
+			if len(pool) == 0 {
+				continue
+			}
+			si, di := op.Slot%len(pool), op.To%len(pool)
+			if typ := int(pool[si].snap.Type); op.Fresh && typ >= 1 && typ <= 15 {
+				ns := &slotC14{p: api.NewPacket(typ), how: "constructor"}
+				ns.snap = api.Observe(ns.p)
+				ns.first = ns.snap.Clone()
+				pool = append(pool, ns)
+				di = len(pool) - 1
+			}
+			src, dst := pool[si], pool[di]
+			what := ""
+			if pan := guard.Call(func() { what = api.Transfer(src.p, dst.p, op.Pick) }); pan != nil {
+				return "panic", fmt.Sprintf("step %d: handing a value of packet %d to a setter of packet %d panicked: %v", step, si, di, pan.Value)
+			}
+			guard.Call(func() { dst.snap = api.Observe(dst.p) })
+			dst.frame, dst.model = nil, nil
+			except = di
+			if !op.Follow || what == "" {
+				break
+			}
+			if !verify(step, op, di) { // handing a value over does not change the source
+				return
+			}
+			given := dst.snap.Clone()
+			if pan := guard.Call(func() { api.FollowUp(src.p, dst.p, what, op.Pick) }); pan != nil {
+				return "panic", fmt.Sprintf("step %d: setter after handing %s of packet %d to packet %d panicked: %v", step, what, si, di, pan.Value)
+			}
+			guard.Call(func() { dst.snap = api.Observe(dst.p) })
+			if what == "Filters" && si != di {
+				// dst: what it had + src's filters, then one of its own; the
+				// filter src got afterwards is src's alone
+				want := append(append([]model.Filter(nil), given.Filters...), model.Filter{Filter: api.FollowOwnFilter, Opts: 2})
+				if fmt.Sprint(dst.snap.Filters) != fmt.Sprint(want) {
+					return "interference:transfer:SUBSCRIBE", fmt.Sprintf("step %d: packet %d was given the filters of packet %d and then one filter of its own; after one more filter was added to packet %d, packet %d holds %v, want %v", step, di, si, si, di, dst.snap.Filters, want)
+				}
+				wantSrc := append(append([]model.Filter(nil), src.snap.Filters...), model.Filter{Filter: api.FollowLaterFilter, Opts: 4})
+				guard.Call(func() { src.snap = api.Observe(src.p) })
+				src.frame, src.model = nil, nil
+				if fmt.Sprint(src.snap.Filters) != fmt.Sprint(wantSrc) {
+					return "interference:transfer:SUBSCRIBE", fmt.Sprintf("step %d: packet %d handed its filters to packet %d, which then got one of its own; one more filter added to packet %d gives %v, want %v", step, si, di, si, src.snap.Filters, wantSrc)
+				}
+			}
+			// binary fields: only dst was written to, src is checked like everyone else
 		case "reuse-connect":
 			// decode another CONNECT into a Connect value that is already in
 			// the pool; the will message obtained from it before is a packet
@@ -306,7 +359,7 @@ func TestC14(t *testing.T) {
 		var kinds []string
 		types := map[int]uint8{}
 		for i := 0; i < n; i++ {
-			k := rapid.IntRange(0, 11).Draw(t, "op")
+			k := rapid.IntRange(0, 12).Draw(t, "op")
 			if live == 0 && k > 3 {
 				k = rapid.IntRange(0, 3).Draw(t, "op0")
 			}
@@ -367,6 +420,9 @@ func TestC14(t *testing.T) {
 						kinds = append(kinds, "redecode")
 						continue
 					}
+				} else if k0 == 4 {
+					m := genSpecValid(t, model.SUBSCRIBE) // lists whose length is not their capacity
+					op.Frame = ref.Canonical(&m)
 				} else if k0 == 2 {
 					m := genSpecValid(t, model.CONNECT)
 					if m.Will == nil {
@@ -394,6 +450,15 @@ func TestC14(t *testing.T) {
 				f, _ := genCompleteFrame(t, true)
 				if rapid.IntRange(0, 5).Draw(t, "rp-type0") == 0 {
 					f = ref.Reframe(byte(rapid.IntRange(0, 15).Draw(t, "nib")), rapid.SliceOfN(rapid.Byte(), 1, 24).Draw(t, "undefined-body"))
+				}
+				if rapid.IntRange(0, 5).Draw(t, "rp-alias") == 0 {
+					// frames that refer to the same topic alias, read from streams
+					m := model.New(model.PUBLISH)
+					m.TopicAlias = uint16(rapid.IntRange(1, 3).Draw(t, "alias"))
+					m.TopicName = rapid.SampledFrom([]string{"", "", "t/1", "t/2", "t/3"}).Draw(t, "aliastopic")
+					m.Payload = []byte("x")
+					m.Normalize()
+					f = ref.Canonical(&m)
 				}
 				op.Frame = f
 				op.Reader = rapid.SampledFrom([]string{"bytes.Reader", "bytes.Buffer", "bytes.Buffer", "bufio"}).Draw(t, "rp-reader")
@@ -438,6 +503,29 @@ func TestC14(t *testing.T) {
 				op.Setter, op.AfterGob = s.Name, packModel(m)
 				if s.IsList {
 					op.Index = listLenOf(&m, s.Name) - 1
+				}
+			case k == 12:
+				op.Kind = "transfer"
+				op.Slot = rapid.IntRange(0, 5).Draw(t, "slot")
+				op.To = rapid.IntRange(0, 5).Draw(t, "to")
+				op.Pick = rapid.IntRange(0, 55).Draw(t, "pick")
+				op.Follow = rapid.Bool().Draw(t, "follow")
+				op.Fresh = rapid.IntRange(0, 2).Draw(t, "fresh") == 0
+				var subs []int
+				for idx := 0; idx < live; idx++ {
+					if types[idx] == model.SUBSCRIBE {
+						subs = append(subs, idx)
+					}
+				}
+				if len(subs) > 0 && rapid.Bool().Draw(t, "fromsubscribe") {
+					op.Slot = subs[rapid.IntRange(0, len(subs)-1).Draw(t, "subslot")]
+				}
+				if op.Fresh {
+					types[live] = types[op.Slot%live]
+					live++
+				}
+				if live >= 2 {
+					nt = true
 				}
 			default:
 				op.Kind = "redecode"
